@@ -320,6 +320,19 @@ pub fn run_emit(field: &str, lit: &str, hist: &mut Hist) -> (String, String) {
                     }
                     _ => "ok".to_string(),
                 }
+            } else if reject_class(&msg) == "double on Metal" {
+                // Metal has no double: since fix 9824ce3 every `L` literal (finite or infinite) is rejected by the Metal
+                // generator, as `double` declarations always were.  The rejection must be about a double: the target is
+                // Metal and the literal has the `L` suffix, or the `init` context declared a `double` for an untyped one
+                let kind = match ref_numeric(lit.as_bytes()) {
+                    RefNum::Float { kind, .. } => kind,
+                    _ => "",
+                };
+                if tgt == Tgt::Msl && (kind == "Float64" || (ctx == "init" && kind == "Float")) {
+                    "SKIP:rejected by the front end (double on Metal)".to_string()
+                } else {
+                    format!("FAIL:emit literal {} is not a double but was rejected as UnsupportedDouble ({})", lit, tgt.name())
+                }
             } else {
                 format!("SKIP:rejected by the front end ({})", reject_class(&msg))
             };
@@ -811,7 +824,8 @@ pub fn generate(args: &Args, rng: &mut Rng, out: &mut Out, hist: &mut Hist) -> (
             }
         };
         if tgt == Tgt::Msl && kind == "Float64" && bits & !(1u64 << 63) == F64.inf() {
-            // `write_infinity_f64` panics by design ("invalid msl"): Metal has no double, the generator rejects it earlier
+            // `write_infinity_f64` panics by design ("invalid msl"): Metal has no double and the Metal generator builds no
+            // Float64 literal (fix 9824ce3; `msl_double_literal_rejected`), so this AST node is not an input of the formatter
             continue;
         }
         let disp = display_of(kind, bits);
